@@ -74,7 +74,7 @@ func CommonExpl(id string) string {
 		if len(sc) == 1 && sc[0] == "" {
 			where = "the whole module"
 		}
-		out += " Cross-cutting rules (.x) within " + where + ": no nested short declaration hides a result that is read after the block; no errors.Wrap of an error that is nil on every path; results that can be nil without an error are tested before use, and no result is used on the path where its call failed; no in-place removal at a loop index followed by the next index; no slot count re-typed as an epoch count (or back) without slotsPerEpoch, no integer ratio converted to floating point afterwards; no slice parameter sorted in place; wait groups balance, no fan-out under an errgroup context, coalesced requests keyed by the request; a guard before a submit/sign/send of a collection asks for non-empty, not for more than some number of elements; a closure that runs later from inside a loop does not share a variable declared outside the loop and assigned inside it; an integer quotient of two run-time quantities is not used as a modulus without a clamp; in strategies no send, receive or select on a channel kept in a service field; wiring: no two functional options of a package store into the same parameters field, and a Service field with the name and type of a parameters field is that setting or a constant default, never a value computed from other settings; language and library semantics (rules/semantics.go): no empty slice with spare capacity stored anew on every trip round a loop and no `b := a[:0]` with both appended to, no view of an outer array variable kept per trip, no in-place arithmetic on a big number obtained from a parameter or getter, no 64-bit accessor of a big number outside its range test (uses that only feed logging/metrics excepted), no slice-to-array conversion, no Wrap of an Unwrap, semaphore weights are the constant 1, no order comparison of unsigned values re-typed as signed, no multi-character cutset for TrimLeft/TrimRight, no ParseUint/ParseInt with base 0, no deferred Release/Unlock inside a loop, no hash state summed on every trip without a reset, no sort of one of several slices filled side by side."
+		out += " Cross-cutting rules (.x) within " + where + ": no nested short declaration hides a result that is read after the block; no errors.Wrap of an error that is nil on every path; results that can be nil without an error are tested before use, and no result is used on the path where its call failed; no in-place removal at a loop index followed by the next index; no slot count re-typed as an epoch count (or back) without slotsPerEpoch, no integer ratio converted to floating point afterwards; no slice parameter sorted in place; wait groups balance, no fan-out under an errgroup context, coalesced requests keyed by the request; a guard before a submit/sign/send of a collection asks for non-empty, not for more than some number of elements; a closure that runs later from inside a loop does not share a variable declared outside the loop and assigned inside it; an integer quotient of two run-time quantities is not used as a modulus without a clamp; in strategies no send, receive or select on a channel kept in a service field; wiring: no two functional options of a package store into the same parameters field, and a Service field with the name and type of a parameters field is that setting or a constant default, never a value computed from other settings; language and library semantics (rules/semantics.go): no empty slice with spare capacity stored anew on every trip round a loop and no `b := a[:0]` with both appended to, no view of an outer array variable kept per trip, no in-place arithmetic on a big number obtained from a parameter or getter, no 64-bit accessor of a big number outside its range test (uses that only feed logging/metrics excepted), no slice-to-array conversion, no Wrap of an Unwrap, semaphore weights are the constant 1, no order comparison of unsigned values re-typed as signed, no multi-character cutset for TrimLeft/TrimRight, no ParseUint/ParseInt with base 0, no deferred Release/Unlock inside a loop, no hash state summed on every trip without a reset, no sort of one of several slices filled side by side, no map keyed by a pointer to a plain value, one form (T or *T) per error type in errors.As targets, no channel of nil-able results closed by another goroutine while it is received from with a single-valued receive."
 	}
 	if im := imports[id]; len(im) > 0 {
 		out += " Taken over (.y) from sibling properties that rely on the same code: " + strings.Join(im, ", ") + "."
